@@ -234,10 +234,9 @@ func vdShiftDay(y, m, d, shift int) (y2, m2, d2 int) {
 
 // vdBoundaryDates: concrete dates around month, year, leap-day and range boundaries.
 var vdBoundaryDates = [][3]int{
-	{2023, 12, 31}, {2024, 1, 1}, {2024, 2, 28}, {2024, 2, 29}, {2024, 3, 1}, {2023, 2, 28},
-	{2100, 2, 28}, {2999, 12, 31},
+	{2023, 12, 31}, {2024, 2, 28}, {2024, 2, 29}, {2100, 2, 28}, {2999, 12, 31},
 	// thorough only:
-	{2000, 2, 29}, {1999, 12, 31}, {1970, 1, 1}, {2024, 6, 30},
+	{2024, 1, 1}, {2024, 3, 1}, {2023, 2, 28}, {2000, 2, 29}, {1999, 12, 31}, {1970, 1, 1}, {2024, 6, 30},
 	{1700, 1, 1}, {1900, 2, 28}, {1900, 3, 1}, {2000, 1, 1}, {2000, 12, 31}, {2038, 1, 19}, {2226, 12, 31},
 	{2227, 1, 1}, {2400, 2, 29}, {400, 1, 1}, {1, 1, 1}, {2024, 4, 30}, {2024, 7, 31}, {2024, 8, 1}, {2999, 12, 30},
 }
@@ -248,10 +247,10 @@ var vdBoundaryDates = [][3]int{
 // (With a symbolic date as well the solver does not decide the combined time and calendar
 // normalisation; symbolic dates are covered by VerifC33PlusDays.)
 //
-//symgo:harness prop=C33 tier=quick arith=int timeout=300 ttimeout=1700 qtimeout=60000 shards=4 tshards=8 bounds=8_concrete_boundary_dates_(thorough_27);any_time_of_day;one_of_hours/minutes/seconds/ms_offset_up_to_+-2_days'_worth_(thorough_+-4) outside=symbolic_date_together_with_time_offsets_(solver_unknown);several_offset_fields_at_once;larger_offsets
+//symgo:harness prop=C33 tier=quick arith=int timeout=300 ttimeout=1700 qtimeout=60000 shards=4 tshards=8 bounds=5_concrete_boundary_dates_(thorough_27);any_time_of_day;one_of_hours/minutes/seconds/ms_offset_up_to_+-2_days'_worth_(thorough_+-4) outside=symbolic_date_together_with_time_offsets_(solver_unknown);several_offset_fields_at_once;larger_offsets
 func VerifC33PlusTime() {
 	vdEnable()
-	nd := 8
+	nd := 5
 	span := 1
 	if rt.Thorough() {
 		nd, span = len(vdBoundaryDates), 3
@@ -300,7 +299,7 @@ func VerifC33PlusTime() {
 // is y2-y years, or 12*(y2-y)+(m2-m) months with m2 concrete); Gregorian normalisation: day d of
 // month (y2,m2) if that month has it, otherwise the overflow runs into the following month.
 //
-//symgo:harness prop=C33 tier=quick arith=int timeout=300 ttimeout=1700 qtimeout=60000 shards=4 tshards=8 bounds=source_and_target_year_any_of_400..2999;source_month_case-split;years_offset_any;months_offset_=_12*(y2-y)+1_(thorough:_any_target_month) outside=month_offsets_to_other_target_months_in_quick;years_0..399;several_offset_fields_at_once
+//symgo:harness prop=C33 tier=quick arith=int timeout=300 ttimeout=1700 qtimeout=60000 shards=4 tshards=8 bounds=source_and_target_year_any_of_400..2999;years_offset:_source_month_in_{1,2,3,12}_(thorough_all);months_offset_=_12*(y2-y)+1_from_every_source_month_(thorough:_to_any_target_month) outside=month_offsets_to_other_target_months_in_quick;years_0..399;several_offset_fields_at_once
 func VerifC33PlusYearsMonths() {
 	vdEnable()
 	y, m, d, h, mi, s, ms := vdSource()
@@ -314,6 +313,9 @@ func VerifC33PlusYearsMonths() {
 	var r SuDate
 	var ok bool
 	if rt.Pick("field", 2) == 0 {
+		if !rt.Thorough() && m > 3 && m < 12 {
+			rt.Assume(false) // quick: years added to dates of January, February, March, December
+		}
 		r, ok = vdPlus(src, y2-y, 0, 0, 0, 0, 0, 0)
 	} else {
 		if rt.Thorough() {
@@ -348,7 +350,7 @@ func VerifC33PlusYearsMonths() {
 // C33: the julian day number is the reference day number plus a constant, so MinusDays is the
 // difference of reference day numbers for any two dates (years 400..2999, concrete months).
 //
-//symgo:harness prop=C33 tier=quick arith=int timeout=200 ttimeout=900 qtimeout=20000 shards=1 tshards=4 bounds=any_two_valid_dates_of_years_400..2999;first_month_case-split;second_month_in_{1,2,3,12}_(thorough_all) outside=years_0..399
+//symgo:harness prop=C33 tier=quick arith=int timeout=200 ttimeout=900 qtimeout=20000 shards=1 tshards=4 bounds=julian_day_number:_any_valid_date_of_years_400..2999_(month_case-split);difference:_any_two_such_dates_with_months_in_{1,2,3,12}_(thorough_all_months) outside=years_0..399
 func VerifC33MinusDays() {
 	vdEnable()
 	y, m, d, h, mi, s, ms := vdSource()
